@@ -49,6 +49,14 @@ theorem tymer_restarts_lossless (w : TWorld τ) (t : Tymer τ) (ops : List (TOp 
   refine ⟨w', t', h1, h3, ?_⟩
   rw [h4]; simp only [Tymer.duration]; ring
 
+/-- durations are arbitrary elements of `τ` in every theorem of this file — negative ones included (no `0 ≤ d` hypothesis
+anywhere): `stop = start + d` for every `d` through the constructor, `start` and `restart`.  Test on literals: a tymer built
+with duration −5 at tyme 0 has stop −5 and is expired at once; `restart(-3)` begins at −5 and stops at −8. -/
+example : (Tymer.new (0 : Int) ⟨fun _ => 0, fun _ => 1⟩ (some 0) (some (-5)) none).stop = -5 ∧
+    (Tymer.new (0 : Int) ⟨fun _ => 0, fun _ => 1⟩ (some 0) (some (-5)) none).expired ⟨fun _ => 0, fun _ => 1⟩ = .ok true ∧
+    ((Tymer.new (0 : Int) ⟨fun _ => 0, fun _ => 1⟩ (some 0) (some (-5)) none).restartOp ⟨fun _ => 0, fun _ => 1⟩ (some (-3))).map
+      (fun p => (p.1.start, p.1.stop)) = .ok (-5, -8) := by decide
+
 example : (∀ op ∈ [(TOp.setTyme 0 17 : TOp Int), .restart none, .tick 0, .setTyme 0 3, .restart none], op.tymeOrRestart = true) := by decide
 
 /-- C08 (MonoTimer): between two start/restart calls the reported `elapsed` values never decrease — for every timer state
